@@ -75,6 +75,7 @@ func init() {
 							cs = append(cs, fw.Case{ID: fmt.Sprintf("%s/limb%d+%s*p", n, i, k), Kind: "kp", P: map[string]any{"inst": n, "i": i, "kk": k, "k": 1}})
 						}
 						cs = append(cs, fw.Case{ID: fmt.Sprintf("%s/borrow%d", n, i), Kind: "borrow", P: map[string]any{"inst": n, "i": i, "k": 1}})
+						cs = append(cs, fw.Case{ID: fmt.Sprintf("%s/samev/limb%d", n, i), Kind: "samev", P: map[string]any{"inst": n, "i": i, "k": 1}})
 						cs = append(cs, fw.Case{ID: fmt.Sprintf("%s/trunc128/limb%d", n, i), Kind: "trunc", P: map[string]any{"inst": n, "i": i, "k": 1}})
 					}
 					cs = append(cs, fw.Case{ID: n + "/all+p", Kind: "allp", P: map[string]any{"inst": n, "k": 1}})
@@ -146,6 +147,17 @@ func init() {
 					for j := range V {
 						V[j] = new(big.Int).Mod(V[j], pow2(128))
 					}
+					vSet = true
+				case "samev":
+					// a second limb set for the SAME public values: limb_i (and sometimes a second
+					// limb) shifted by multiples of p, the public values left as the honest packing
+					i := c.Int("i")
+					limbs[i] = new(big.Int).Add(truth[i], new(big.Int).Mul(bigP, big.NewInt(int64(1+r.Intn(3)))))
+					if r.Intn(2) == 0 {
+						j := r.Intn(16)
+						limbs[j] = new(big.Int).Add(truth[j], bigP)
+					}
+					V = packLimbs(truth)
 					vSet = true
 				case "allp":
 					for i := range limbs {
